@@ -1232,8 +1232,25 @@ def run_and_eval(ctx, exe, cases, name):
     res = None
     CH = 1200
     agg = {"mismatch": [], "violations": [], "wrong": [], "cls": []}
+    def ev(lo, hi, tag, depth=0):
+        """evaluate cases[lo:hi]; a coqc run that dies without a Coq error (killed under memory / time pressure)
+        is retried on the two halves"""
+        nb = len(ctx.brokens)
+        r = evaluate(ctx, cases[lo:hi], tag)
+        if r is None and depth < 3 and hi - lo > 1 and len(ctx.brokens) == nb + 1 and "Error" not in ctx.brokens[-1]["detail"]:
+            ctx.log("model evaluation %s died without a Coq error (%r); retrying in two halves"
+                    % (tag, ctx.brokens[-1]["detail"][-200:]))
+            ctx.brokens.pop()
+            mid = (lo + hi) // 2
+            a = ev(lo, mid, tag + "a", depth + 1)
+            b = ev(mid, hi, tag + "b", depth + 1)
+            if a is None or b is None:
+                return None
+            r = {key: a[key] + [(mid - lo) + i for i in b[key]] for key in ("mismatch", "violations", "wrong")}
+            r["cls"] = a["cls"] + b["cls"]
+        return r
     for k in range(0, len(cases), CH):
-        r = evaluate(ctx, cases[k:k + CH], "%s_%d" % (name, k // CH))
+        r = ev(k, min(k + CH, len(cases)), "%s_%d" % (name, k // CH))
         if r is None:
             return None
         for key in ("mismatch", "violations", "wrong"):
